@@ -119,7 +119,8 @@ def make_case(unit):
     if pw:
         tr["pairwise_indices"] = pw
     return {"template": template, "spec": sim.spec_to_dict(spec), "transforms": tr,
-            "mode": mode, "indices_first": g.chance(0.5)}
+            "mode": mode, "indices_first": g.chance(0.5),
+            "mask_size": cases.mask_size_for(ID, i)}
 
 
 def alphas_of(tr):
